@@ -1398,5 +1398,15 @@ pub mod verif {
             .expect("failed to build thread pool")
             .install(f)
     }
+
+    /// A dedicated rayon pool with `n` threads (`pool.install(..)` makes
+    /// `rayon::current_num_threads()` return `n` inside).
+    pub type ThreadPool = rayon::ThreadPool;
+    pub fn thread_pool(n: usize) -> ThreadPool {
+        rayon::ThreadPoolBuilder::new()
+            .num_threads(n)
+            .build()
+            .expect("failed to build thread pool")
+    }
     // --- end C16 ---
 }
